@@ -330,9 +330,10 @@ impl<W: 'static, R: 'static, T: 'static> XGenerator<W, R, T> {
                 let mut current_group: Vec<Rc<ManagedXValue<W, R, T>>> = Vec::new();
 
                 inner
-                    .map(Some)
-                    .chain(iter::once(None))
                     .zip(rt.limits.search_iter())
+                    .map(|(i, s)| (Some(i), s))
+                    // the end-of-input marker is not an examined element: it takes no search permit
+                    .chain(iter::once((None, Ok(()))))
                     .filter_map(move |(i, s)| {
                         if let Err(violation) = s {
                             return Some(Err(violation));
